@@ -538,7 +538,13 @@ func (fr *Frame) invoke(st *State, call ssa.CallInstruction) []Term {
 // pureMethod: result is an uninterpreted function of receiver, receiver state and arguments.
 func (fr *Frame) pureMethod(st *State, m *types.Func, recv Term, args []Term) []Term {
 	vc := fr.vc
-	return vc.pureMethodTerms(st, m, recv, args)
+	res := vc.pureMethodTerms(st, m, recv, args)
+	fr.pureMethodIdiom(st, m, res)
+	return res
+}
+
+func (fr *Frame) pureMethodIdiom(st *State, m *types.Func, res []Term) {
+	fr.assumeIdiom(st, m.Type().(*types.Signature), res, ifaceMethodKey(m))
 }
 
 func (vc *VC) pureMethodTerms(st *State, m *types.Func, recv Term, args []Term) []Term {
